@@ -666,7 +666,40 @@ func famBind(r *Rng, o *Out, tier string) {
 			root.Add(r.plainCav(1))
 		}
 		it, _ := newTP(ka, "https://auth.example")
+		// half of the families: a second third party on the same token, before or after the one whose discharge
+		// gets bound; its own (unbound, genuine) discharge accompanies every presentation
+		var otherDis []byte
+		twoTP := fam%2 == 1
+		otherFirst := r.Bool()
+		addOther := func() {
+			kb := r.Bytes(32)
+			ot, _ := newTP(kb, "https://other.example")
+			root.Add(ot.cav)
+			_, od, err := macaroon.DischargeTicket(kb, "https://other.example", ot.tp.ticket)
+			if err != nil {
+				panic(err)
+			}
+			otherDis = mustEnc(od)
+		}
+		if twoTP && otherFirst {
+			addOther()
+		}
 		root.Add(it.cav)
+		if twoTP && !otherFirst {
+			addOther()
+		}
+		if twoTP {
+			o.count(fmt.Sprintf("twoTP.otherFirst=%v", otherFirst))
+		}
+		with := func(d []byte) [][]byte {
+			if otherDis == nil {
+				return [][]byte{d}
+			}
+			if r.Bool() {
+				return [][]byte{otherDis, d}
+			}
+			return [][]byte{d, otherDis}
+		}
 		hs := growTree(r, root, 3, 2)
 		// an unrelated tree with its own third-party caveat for the same third party
 		root2, _ := macaroon.New(r.Bytes(8), loc, key)
@@ -693,7 +726,7 @@ func famBind(r *Rng, o *Out, tier string) {
 		for bi := range hs {
 			d := mkDis([][]byte{hs[bi].bytes}, false)
 			for pi := range hs {
-				obs := emitVerify(o, key, hs[pi].bytes, [][]byte{d}, nil)
+				obs := emitVerify(o, key, hs[pi].bytes, with(d), nil)
 				if obs == "err:unmodelled" {
 					continue
 				}
@@ -727,7 +760,7 @@ func famBind(r *Rng, o *Out, tier string) {
 				continue
 			}
 			pi := r.Intn(len(hs))
-			obs := emitVerify(o, key, hs[pi].bytes, [][]byte{d}, nil)
+			obs := emitVerify(o, key, hs[pi].bytes, with(d), nil)
 			if obs == "err:unmodelled" {
 				continue
 			}
@@ -742,7 +775,7 @@ func famBind(r *Rng, o *Out, tier string) {
 		// a token that carries a binding, presented as a permission token
 		pm, _ := macaroon.Decode(hs[r.Intn(len(hs))].bytes)
 		pm.BindToParentMacaroon(root)
-		obs := emitVerify(o, key, mustEnc(pm), [][]byte{mkDis(nil, false)}, nil)
+		obs := emitVerify(o, key, mustEnc(pm), with(mkDis(nil, false)), nil)
 		if obs == "err:unmodelled" {
 			continue
 		}
